@@ -146,7 +146,13 @@ def _eq(a, b):
     if isinstance(a, (tuple, list)):
         return len(a) == len(b) and all(_eq(x, y) for x, y in zip(a, b))
     if hasattr(a, 'edges') and hasattr(a, 'nodes'):
-        return sorted(a.edges(data=True), key=str) == sorted(b.edges(data=True), key=str)
+        if sorted(a.nodes, key=str) != sorted(b.nodes, key=str) or sorted(a.edges, key=str) != sorted(b.edges, key=str):
+            return False
+        for u, v, da in a.edges(data=True):
+            db = b.edges[u, v]
+            if sorted(da) != sorted(db) or not all(_eq(da[k], db[k]) for k in da):      # float attributes at 1e-9, everything else exactly
+                return False
+        return True
     if type(a).__name__ == 'Collective':
         return a.coll_jumps == b.coll_jumps and a.n_solo_jumps == b.n_solo_jumps
     if isinstance(a, float) and isinstance(b, float):
